@@ -242,6 +242,8 @@ def _binary_write(ex, args, ins, where):
         bs = [ex.ite_t(v, 1, 0, ex.t_uint8) if is_sym(v) else (1 if v else 0)]
     elif k == 'slice' and T.kind(T.elem(t)) == 'int' and T.width(T.elem(t)) == 8:
         bs = ex.slice_elems(v)
+    elif k == 'array' and T.kind(T.elem(t)) == 'int' and T.width(T.elem(t)) == 8:
+        bs = list(v)
     else:
         raise Unsupported('binary.Write of ' + T.tab[t]['str'])
     r = ex.invoke(w, 'Write', [ex.mkslice(bs)], ins, where, 10)
@@ -399,3 +401,57 @@ def _crc32_checksum(ex, args, ins, where):
 @intrinsic('hash/crc32.MakeTable')
 def _crc32_table(ex, args, ins, where):
     return Ptr(ex.new_obj(Opaque('crc32 table')), ())
+
+
+def _int_from_bytes(bs, endian, width):
+    if endian == 'big':
+        bs = list(reversed(bs))
+    if all(not is_sym(b) for b in bs):
+        v = 0
+        for i, b in enumerate(bs):
+            v |= b << (8 * i)
+        return v
+    return simp(z3.Concat(*[to_bv(b, 8) for b in reversed(bs)])) if len(bs) > 1 else bs[0]
+
+
+@intrinsic('encoding/binary.Read')
+def _binary_read(ex, args, ins, where):
+    r, order, data = args
+    endian = _order_name(ex, order)
+    if not isinstance(data, Iface):
+        raise Unsupported('binary.Read data')
+    T = ex.T
+    t, v = data.t, data.v
+    if T.kind(t) == 'slice':
+        if T.kind(T.elem(t)) != 'int' or T.width(T.elem(t)) != 8:
+            raise Unsupported('binary.Read into ' + T.tab[t]['str'])
+        res = ex.call('io.ReadFull', [r, v], ins, where, 10)
+        return res[1]
+    if T.kind(t) != 'ptr':
+        raise Unsupported('binary.Read into non-pointer')
+    et = T.elem(t)
+    k = T.kind(et)
+    if k == 'slice':
+        # binary.Read rejects a pointer to a slice ("invalid type")
+        return opaque_err('binary.Read: invalid type')
+    if k == 'int':
+        n = T.width(et) // 8
+    elif k == 'array' and T.kind(T.elem(et)) == 'int' and T.width(T.elem(et)) == 8:
+        n = T.under(et)['len']
+    elif k == 'bool':
+        n = 1
+    else:
+        raise Unsupported('binary.Read into ' + T.tab[t]['str'])
+    buf = ex.mkslice([0] * n)
+    res = ex.call('io.ReadFull', [r, buf], ins, where, 10)
+    err = res[1]
+    if err is not NIL:
+        return err
+    bs = ex.slice_elems(buf)
+    if k == 'int':
+        ex.store(v, _int_from_bytes(bs, endian, T.width(et)), where, et)
+    elif k == 'bool':
+        ex.store(v, simp(to_bv(bs[0], 8) != 0) if is_sym(bs[0]) else bs[0] != 0, where, et)
+    else:
+        ex.store(v, bs, where, et)
+    return NIL
